@@ -34,18 +34,52 @@ package actor
 //@ structural writers PID.schedState: (*PID).doReceive, (*PID).runTurn, (*PID).finishOrReclaim, restartSubtree
 
 // ---- the worker turn: a handler runs only while this worker owns the actor ----------------
+//@ ghost local rt_pending int
+//@ ghost local rt_last *ReceiveContext
 //@ func (*PID).runTurn(pid, w)
+//@   also C02
 //@   requires w != nil && w.dispatcher != nil
+//@   ghost entry rt_pending = 0
+//@   at call 1 of invoke Dequeue assert previous-message-was-dispatched: rt_pending == 0
+//@   at call 1 of invoke Dequeue ghost rt_last = result
+//@   at call 1 of invoke Dequeue ghost rt_pending = ite(result != nil, 1, 0)
+//@   at call 2 of invoke Dequeue assert previous-message-was-dispatched: rt_pending == 0
+//@   at call 2 of invoke Dequeue ghost rt_last = result
+//@   at call 2 of invoke Dequeue ghost rt_pending = ite(result != nil, 1, 0)
+//@   at call 1 of (*PID).dispatchOne assert dispatches-exactly-the-dequeued-message: rt_pending == 1 && arg1 == rt_last && arg1 != nil
+//@   at call 1 of (*PID).dispatchOne ghost rt_pending = 0
+//@   at call 2 of (*PID).dispatchOne assert dispatches-exactly-the-dequeued-message: rt_pending == 1 && arg1 == rt_last && arg1 != nil
+//@   at call 2 of (*PID).dispatchOne ghost rt_pending = 0
+//@   at call 1 of (*PID).finishOrReclaim assert releases-with-nothing-in-hand: rt_pending == 0
+//@   at call 1 of (*worker).reschedule assert yields-with-nothing-in-hand: rt_pending == 0
+//@   ensures nothing-dequeued-is-dropped: rt_pending == 0
 //@   preserve PID.schedState
-//@   loop 1 invariant owns-the-actor: pid.schedState.v.v == dispatchProcessing
+//@   loop 1 invariant owns-the-actor: pid.schedState.v.v == dispatchProcessing && rt_pending == 0
 //@   at call 1 of (*PID).dispatchOne assert handler-runs-only-under-ownership: pid.schedState.v.v == dispatchProcessing && arg0 == pid
 //@   at call 2 of (*PID).dispatchOne assert handler-runs-only-under-ownership: pid.schedState.v.v == dispatchProcessing && arg0 == pid
 //@   at call 1 of (*dispatchState).YieldToScheduled assert only-the-owner-yields: pid.schedState.v.v == dispatchProcessing
 //@   at call 1 of (*PID).finishOrReclaim assert only-the-owner-releases: pid.schedState.v.v == dispatchProcessing
 
 // release + race-safe reclaim: returns false only when ownership was re-acquired
+// (no lost wake-up: after giving the actor up, the mailboxes are looked at again;
+// the turn ends only if they were empty, or somebody else has scheduled or taken
+// the actor in the meantime)
+//@ ghost local fr_empty bool
+//@ ghost local fr_sys_empty bool
+//@ ghost local fr_resched bool
+//@ ghost local fr_taken bool
 //@ func (*PID).finishOrReclaim(pid)
+//@   also C02
 //@   requires pid.schedState.v.v == dispatchProcessing
+//@   ghost entry fr_empty = false
+//@   ghost entry fr_sys_empty = false
+//@   ghost entry fr_resched = true
+//@   ghost entry fr_taken = true
+//@   at call 1 of invoke IsEmpty ghost fr_empty = result
+//@   at call 2 of invoke IsEmpty ghost fr_sys_empty = result
+//@   at call 1 of (*dispatchState).TrySchedule ghost fr_resched = result
+//@   at call 1 of (*dispatchState).TakeForProcessing ghost fr_taken = result
+//@   ensures ends-the-turn-only-when-drained-or-handed-over: result ==> (fr_empty && fr_sys_empty) || !fr_resched || !fr_taken
 //@   preserve PID.schedState
 //@   ensures continues-only-as-owner: !result ==> pid.schedState.v.v == dispatchProcessing
 
@@ -54,7 +88,8 @@ package actor
 // worker - can apply to THIS actor's dispatch state are TrySchedule and
 // TakeForProcessing, which are no-ops in that state (their contracts above);
 // YieldToScheduled and reset are owner-only (site assertions in runTurn /
-// finishOrReclaim). The one exception is restartSubtree's reset: see below.
+// finishOrReclaim, structural callers of reset); the restart path uses
+// releaseStale, which leaves Processing alone.
 //@ func (*PID).dispatchOne(pid, received, now)
 //@   trusted "rely: nobody but the owner takes an actor out of Processing (TrySchedule/TakeForProcessing are no-ops there)"
 //@   ensures stays-owned: old(pid.schedState.v.v) == dispatchProcessing ==> pid.schedState.v.v == dispatchProcessing
@@ -63,12 +98,17 @@ package actor
 //@ structural callers (*PID).dispatchOne: (*PID).runTurn
 //@ structural callers (*PID).handleReceived: (*PID).dispatchOne, (*PID).handleAsyncRequest
 
-// forcing the state back to Idle is legitimate for the owner (finishOrReclaim) or
-// when no worker holds the actor; the restart path does it after waiting for
-// that, but handles messages again before it resets
+// forcing the state back to Idle is the owner's privilege: reset is called only
+// from the turn loop's release step; the restart path - which runs while the
+// re-initialised actor may already be handling messages on a worker - may only
+// drop a stale Scheduled claim and never touches Processing
+//@ structural callers (*dispatchState).reset: (*PID).finishOrReclaim, (*grainPID).finishOrReclaim
+//@ func (*dispatchState).releaseStale(s)
+//@   ensures never-takes-an-actor-from-its-owner: old(s.v.v) == dispatchProcessing ==> s.v.v == dispatchProcessing
+//@   ensures drops-only-a-scheduled-claim: (old(s.v.v) == dispatchScheduled ==> s.v.v == dispatchIdle) && (old(s.v.v) != dispatchScheduled ==> s.v.v == old(s.v.v))
+
 //@ structural writers PID.behaviorStack: newPID
 //@ func restartSubtree(ctx, node, parent, tree, deathWatch, actorSystem)
 //@   requires node != nil && node.pid != nil && node.pid.behaviorStack != nil
 //@   preserve PID.behaviorStack
 //@   at call 1 of (*PID).init interference PID.schedState
-//@   at call 1 of (*dispatchState).reset assert resets-only-an-actor-no-worker-holds: pid.schedState.v.v != dispatchProcessing
